@@ -108,6 +108,7 @@ where
     trait SpliceFn {
         fn read(&mut self) -> BoxFuture<'_, IoResult<usize>>;
         fn write(&mut self, more: bool) -> BoxFuture<'_, IoResult<usize>>;
+        fn shutdown(&mut self) -> IoResult<()>;
     }
     type BoxSpliceFn = Box<dyn SpliceFn + Send>;
     struct NullFn;
@@ -116,6 +117,9 @@ where
             unreachable!()
         }
         fn write(&mut self, _more: bool) -> BoxFuture<'_, IoResult<usize>> {
+            unreachable!()
+        }
+        fn shutdown(&mut self) -> IoResult<()> {
             unreachable!()
         }
     }
@@ -136,6 +140,20 @@ where
             }
             fn write(&mut self, more: bool) -> BoxFuture<'_, IoResult<usize>> {
                 async_splice(&mut self.pipe.0, &self.dfd, self.bufsz, more).boxed()
+            }
+            fn shutdown(&mut self) -> IoResult<()> {
+                use std::os::unix::prelude::AsRawFd;
+                // half-close: the other copy direction still owns a duplicate of this socket
+                let ret = unsafe { libc::shutdown(self.dfd.as_raw_fd(), libc::SHUT_WR) };
+                if ret == 0 {
+                    return Ok(());
+                }
+                let e = std::io::Error::last_os_error();
+                if e.kind() == std::io::ErrorKind::NotConnected {
+                    Ok(())
+                } else {
+                    Err(e)
+                }
             }
         }
 
@@ -200,6 +218,12 @@ where
                 break;
             }
         }
+    }
+
+    if have_rawfd {
+        pipe_fn
+            .shutdown()
+            .with_context(|| format!("shutdown {})", dst.name))?;
     }
 
     if let Some(mut s) = dst.stream {
